@@ -286,3 +286,80 @@ class C03(Spec):
 
     def nontrivial(self, case, res):
         return res.info.get('probes', {}).get('flags_true', 0) > 0
+
+
+from .families import framesfam  # noqa: E402
+
+
+@_register
+class C10(Spec):
+    check_id = 'C10'
+    family = 'frames'
+    title = 'message framing tolerates any stream chunking and arrival order'
+    technique = ('deterministic simulation of the real MessageExchanger over an in-memory byte stream: seeded chunkings '
+                 '(boundary-seeking, bytewise), enumerated single cut positions, receive-before/after-arrival interleavings')
+    quick = {'runs': 4000, 'wall': 75}
+    thorough = {'runs': 600000, 'wall': 900}
+    expected_probes = ('recv_before_arrival', 'recv_after_arrival', 'empty_payloads', 'keys_checked')
+    ENUM = 1200     # seeds below this (mod 4000) enumerate single cut offsets of a small scenario
+
+    def make_case(self, seed, tier):
+        rng = random.Random(f'C10/{seed}')
+        i = seed % 4000
+        if i < self.ENUM:
+            # enumeration part: one fixed small scenario per 300 seeds, cut offset = i % 300 on one pipe
+            base = random.Random(f'C10enum/{i // 300}/{seed // 4000 if tier != "quick" else 0}')
+            m = base.choice((2, 3, 3, 4))
+            t = base.choice(range((m + 1) // 2))
+            cfg = sample_cfg(base, tier, m_min=m, m_max=m)
+            cfg.t = t
+            cfg.no_prss = base.random() < 0.3
+            prog = framesfam.gen(base, cfg, tier, n_msgs=base.randint(2, 4), big=False)
+            src, dst = base.sample(range(m), 2)
+            off = 1 + i % 300
+            return {'family': 'frames', 'cfg': cfg.to_json(), 'prog': prog, 'seed': seed,
+                    'strategy': {'deliver': 'cutat', 'sched': base.choice(('uniform', 'canonical', 'burst')),
+                                 'params': {'cut': [src, dst, off], 'event_hold_p': 0.0, 'reorder_p': 0.0}}}
+        cfg = sample_cfg(rng, tier, m_min=2)
+        prog = framesfam.gen(rng, cfg, tier)
+        deliver = rng.choice(('boundary', 'boundary', 'bytewise', 'chunks', 'lazy', 'eager', 'slowlink'))
+        if deliver == 'bytewise':
+            for mm in prog['msgs']:
+                mm[3] = min(mm[3], 300)
+        return {'family': 'frames', 'cfg': cfg.to_json(), 'prog': prog, 'seed': seed,
+                'strategy': {'deliver': deliver},
+                'start_delays': sample_start_delays(rng, cfg.m)}
+
+    def monitors(self, case):
+        return [M.WireMonitor()]
+
+    def nontrivial(self, case, res):
+        return res.stats.get('split_delivery', 0) > 0 and res.bytes > 0
+
+
+@_register
+class C16(Spec):
+    check_id = 'C16'
+    family = 'frames'
+    title = 'PRSS keys are shared exactly among each subset\'s members'
+    technique = ('deterministic simulation of connection set-up for all (m,t): staggered starts, refused connects + retry, '
+                 'handshake chunkings; god\'s-eye comparison of every party\'s key table')
+    quick = {'runs': 2500, 'wall': 75}
+    thorough = {'runs': 400000, 'wall': 900}
+    expected_probes = ('keys_checked',)
+
+    def make_case(self, seed, tier):
+        rng = random.Random(f'C16/{seed}')
+        pairs = [(m, t) for m in range(2, 8) for t in range((m + 1) // 2)]
+        m, t = pairs[seed % len(pairs)]
+        cfg = sample_cfg(rng, tier, m_min=m, m_max=m)
+        cfg.t = t
+        cfg.no_prss = False
+        prog = framesfam.gen(rng, cfg, tier, n_msgs=rng.randint(0, 3), big=False)
+        deliver = rng.choice(('boundary', 'bytewise', 'chunks', 'lazy', 'eager'))
+        return {'family': 'frames', 'cfg': cfg.to_json(), 'prog': prog, 'seed': seed,
+                'strategy': {'deliver': deliver},
+                'start_delays': [rng.choice((0.0, 0.0, 0.05, 0.1, 0.15, 0.3, 1.0)) for _ in range(m)]}
+
+    def nontrivial(self, case, res):
+        return res.info.get('probes', {}).get('keys_checked', 0) > 0
